@@ -137,6 +137,14 @@ func (h *Handler) Handle(req, resp dhcpv6.DHCPv6) (dhcpv6.DHCPv6, bool) {
 			// which is equivalent to no hint
 			hints = []*dhcpv6.OptIAPrefix{{Prefix: &net.IPNet{}}}
 		}
+		for _, hint := range hints {
+			if hint.Prefix == nil {
+				// An IAPrefix with prefix-length 0 is parsed to a nil prefix. It is an
+				// empty hint like the one above; normalize it here so that none of the
+				// passes below dereferences nil (which used to panic with the lock held)
+				hint.Prefix = &net.IPNet{}
+			}
+		}
 
 		// Bitmap to track which requests are already satisfied or not
 		satisfied := bitset.New(uint(len(hints)))
